@@ -377,7 +377,7 @@ impl Check for C04 {
         "C04"
     }
     fn plan(&self, tier: Tier) -> Plan {
-        Plan { cases: if tier == Tier::Quick { 60_000 } else { 2_000_000 }, max_len: 6000 }
+        Plan { cases: if tier == Tier::Quick { 150_000 } else { 3_000_000 }, max_len: 6000 }
     }
     fn rule(&self) -> String {
         "choice sequence -> one of {token sequence over 1..300 contexts with generated LZ77 copies (all 120 special distances, clamped and overlapping copies, dist_multiplier 0..100000), Lehmer-coded permutation (size <= 3000, any skip), cluster map (<= 2000 contexts, simple / nested entropy-coded +-MTF +-LZ77)} x generated code description (prefix: alphabet1/single/simple nsym2-4 both trees/complex with 16-17 repeat chains, lengths to 15, alphabets to 2^15; ANS: single/binary/flat/general with every shift and RLE, log_alphabet 5..8; cluster maps; hybrid-integer configs). Oracle: jxl_coding::Decoder returns exactly the sequence, Bitstream::num_read_bits equals the bits written after the header and after the last symbol, finalize() Ok; negative: wrong ANS final state and cluster holes must be Err. Non-trivial: >=2 distinct values or >=1 copy / non-identity permutation / >=2 contexts; distinct by FNV of the encoded bytes.".into()
